@@ -26,10 +26,15 @@ Layer B (drivers, on results of real calls):
                         same shape / another shape / the other dtype) and a second operation on P, which must act on what P holds now
   mutated_history       three calls on the SAME caller-owned stack / angle / index / axes objects, which the caller modifies in
                         place between the calls: each result is the selection from the values the objects hold at that moment
+  chain                 the object one operation returned (or the file it wrote) fed into a second operation: composition of the two
+                        numpy selections.  Order strings are passed as literals, run-time built (non-interned) strings, str subclasses;
+                        numbered_from_1 as bool / np.bool_ / 0,1; output and parameter files use hostile names (dots inside the stem,
+                        spaces, sub-directories, [ ] * ?, non-ASCII, stems ending in the extension's letters, relative paths)
   flip_twice            flipping along an axis, then again (second call fed with the returned array in its declared
                         order, or with the MRC file the first call wrote), restores the input
 """
 import os
+import shutil
 
 import numpy as np
 
@@ -60,11 +65,14 @@ ASSUMPTIONS = [
     "index input: non-empty proper subset without repetition, in any order; list, int64/int32 array, text file one index per line, or "
     "csv flag table with a ToBeRemoved column (always 0-based positions; rows whose Removed flag is set are not part of the stack)",
     "returned dtype is not judged for selections (values are compared exactly); pixel values are finite",
+    "csv flag tables: ToBeRemoved may be spelled True/False, TRUE/FALSE, true/false or 0/1 (integers); a Removed column stored as 0/1 INTEGERS is "
+    "outside the quantifier (the unchanged code raises KeyError on `~` of an int column): never generated, such calls are counted out-of-domain",
+    "order arguments are judged by value: 'xyz'/'zyx' given as literals, run-time built strings or str subclasses are the same configuration",
 ]
 
 CLASSES = ["f32_random", "i16_random", "n2", "n25", "wide_4xW", "tall_Hx4", "odd_sizes", "square", "i16_extremes", "f32_extremes",
            "strided_views", "all_file_io", "angles_hostile", "remove_single", "remove_all_but_one", "remove_ends", "idx_files",
-           "crop_parity", "bin_edges", "multi_flip", "bin_integer_means", "pow2_sizes", "max_sizes", "f32_limits", "duplicate_tilts"]
+           "crop_parity", "bin_edges", "multi_flip", "bin_integer_means", "pow2_sizes", "max_sizes", "f32_limits", "duplicate_tilts", "zero_stack", "hostile_paths"]
 OPS = ["sort", "remove", "split", "flip", "crop", "bin"]
 FN = {"sort": "sort_tilts_by_angle", "remove": "remove_tilts", "split": "split_stack_even_odd", "flip": "flip_along_axes",
       "crop": "crop", "bin": "bin"}
@@ -74,13 +82,13 @@ NV = 4
 
 def plan(tier):
     if tier == "quick":
-        return dict(n_cases=375, shards=2, classes=CLASSES, timeout_s=600,
+        return dict(n_cases=405, shards=2, classes=CLASSES, timeout_s=600,
                     min_evals={"sort_tilts_by_angle": 2000, "remove_tilts": 2800, "split_stack_even_odd": 2000, "flip_along_axes": 3500,
-                               "crop": 3000, "bin": 2000, "params_unchanged": 5000, "file_replaced": 700, "mutated_history": 1000, "output_file": 5000, "output_file_bin_int16_fractional": 150, "indices_load": 3800, "indices_load_direct": 3800, "same_result": 4500,
+                               "crop": 3000, "bin": 2000, "params_unchanged": 5000, "file_replaced": 700, "mutated_history": 1000, "chain": 600, "output_file": 5000, "output_file_bin_int16_fractional": 150, "indices_load": 3800, "indices_load_direct": 3800, "same_result": 4500,
                                "interleave": 1000, "flip_twice": 800})
-    return dict(n_cases=10000, shards=16, classes=CLASSES, timeout_s=3000,
+    return dict(n_cases=10800, shards=16, classes=CLASSES, timeout_s=3000,
                 min_evals={"sort_tilts_by_angle": 55000, "remove_tilts": 60000, "split_stack_even_odd": 55000, "flip_along_axes": 95000,
-                           "crop": 60000, "bin": 55000, "params_unchanged": 150000, "file_replaced": 19000, "mutated_history": 28000, "output_file": 150000, "output_file_bin_int16_fractional": 5000, "indices_load": 100000, "indices_load_direct": 100000, "same_result": 130000,
+                           "crop": 60000, "bin": 55000, "params_unchanged": 150000, "file_replaced": 19000, "mutated_history": 28000, "chain": 16000, "output_file": 150000, "output_file_bin_int16_fractional": 5000, "indices_load": 100000, "indices_load_direct": 100000, "same_result": 130000,
                            "interleave": 30000, "flip_twice": 23000})
 
 
@@ -280,7 +288,7 @@ def setup(ctx):
     f_crop = monitors.wrap(ctx, tiltstack, "crop", "crop", _post_crop, _app_crop)
     f_bin = monitors.wrap(ctx, tiltstack, "bin", "bin", _post_bin, _app_bin)
     f_idx = monitors.wrap(ctx, ioutils, "indices_load", "indices_load", _post_idx, _app_idx)
-    ctx.declare("output_file", "output_file_bin_int16_fractional", "same_result", "interleave", "flip_twice", "params_unchanged", "file_replaced", "indices_load_direct", "mutated_history")
+    ctx.declare("output_file", "output_file_bin_int16_fractional", "same_result", "interleave", "flip_twice", "params_unchanged", "file_replaced", "indices_load_direct", "mutated_history", "chain")
     TS = tiltstack.TiltStack
     monitors.trace(ctx, [
         ("TiltStack.__init__", TS.__init__, {"load_file": "self.data = cryomap.read(tilt_stack, transpose=False)",
@@ -402,12 +410,13 @@ def _base_variants(rng, cls):
         kind = ["array", "file"][k] if k < 2 else str(rng.choice(["array", "array", "file"]))
         v = {"in": kind, "in_order": orc.ORDERS[int(rng.integers(0, 2))],
              "out_order": orc.ORDERS[(k + r) % 2] if k < 2 else orc.ORDERS[int(rng.integers(0, 2))],
-             "out_file": bool(rng.random() < 0.5), "layout": str(rng.choice(["c", "c", "view", "strided", "readonly"]))}
+             "out_file": bool(rng.random() < 0.5), "layout": str(rng.choice(["c", "c", "view", "strided", "readonly", "swapaxes", "negstride"])),
+             "ord_in": str(rng.choice(ORD_KINDS)), "ord_out": str(rng.choice(ORD_KINDS))}
         if cls == "all_file_io":
             v["in"], v["out_file"] = "file", True
         if cls == "strided_views":
             v["in"] = "array" if k != 1 else "file"
-            v["layout"] = ["view", "strided", "readonly", "strided"][int(rng.integers(0, 4))]
+            v["layout"] = ["view", "strided", "readonly", "swapaxes", "negstride"][int(rng.integers(0, 5))]
         out.append(v)
     return out
 
@@ -456,6 +465,8 @@ def gen(ctx, i, cls):
             a_, b_ = (int(q) for q in rng.choice(n, 2, replace=False))
             nyx[b_] = nyx[a_]
         nyx[int(rng.integers(0, n))] = nyx.reshape(-1)[0]
+    if cls == "zero_stack":                # value-specific semantics: all-zero images / one single distinct value
+        nyx = np.zeros_like(nyx) if rng.random() < 0.6 else np.full_like(nyx, nyx.reshape(-1)[0])
     angles, akind = _angles(rng, cls, n)
     # index subset (0-based, in the order it will be handed over)
     k = int(rng.integers(1, n))
@@ -513,11 +524,12 @@ def gen(ctx, i, cls):
                 if cls == "angles_hostile" and kk >= 2:
                     v["ang"] = "file"
             elif op == "remove":
-                pool = ["txt", "csv", "csv_removed", "txt"] if cls == "idx_files" else ["array", "list", "array_i32", "txt", "array", "csv", "array_i32", "csv_removed"]
+                pool = ["txt", "csv", "csv_removed", "txt"] if cls == "idx_files" else ["array", "list", "array_i32", "txt", "array_i16", "csv", "array_u8", "csv_removed", "array", "csv"]
                 if kk == 0:
                     rot, first1 = int(rng.integers(0, len(pool))), bool(rng.random() < 0.5)
                 v["idx"] = pool[(kk // 2 + rot) % len(pool)]
                 v["from1"] = first1 if kk < 2 else not first1
+                v["flag"] = str(rng.choice(["py", "py", "np", "int"]))
             elif op == "flip":
                 if kk % 2 == 0:
                     as_str = bool(len(axes) == 1 and rng.random() < 0.5)
@@ -535,6 +547,8 @@ def gen(ctx, i, cls):
             vs[0]["out_file"] = vs[1]["out_file"] = True       # written file of an int16 binning: array and file input
         variants[op] = vs
     fmt = {"ang_style": str(rng.choice(["plain", "aligned", "crlf", "no_final_newline", "g", "odd_tokens"])),
+           "csv_truth": str(rng.choice(["bool", "int01", "int01", "upper", "lower", "mixed_case"])),
+           "path_style": str(rng.choice(PATH_STYLES)) if cls == "hostile_paths" or rng.random() < 0.5 else "plain",
            "ang_ext": str(rng.choice([".tlt", ".rawtlt", ".txt", ".csv"])),
            "idx_style": str(rng.choice(["plain", "crlf", "no_final_newline", "aligned"])),
            "idx_ext": str(rng.choice([".txt", ".dat"])), "in_ext": str(rng.choice([".mrc", ".mrc", ".st", ".ali"])),
@@ -560,19 +574,81 @@ def nontrivial(case):
 
 
 # ---- driver ---------------------------------------------------------------------------------------
+class OrderStr(str):
+    """a str subclass, as a configuration layer might hand over"""
+
+
+def _ord(s, kind):
+    """the same order string as a source literal, as a string BUILT AT RUN TIME (not interned: what a config file, argparse or
+    string manipulation yields), as a str subclass, or via upper().lower()"""
+    if kind == "built":
+        return "".join([c for c in s])
+    if kind == "subclass":
+        return OrderStr("".join(list(s)))
+    if kind == "lowered":
+        return ("." + s.upper()).lower()[1:]
+    return s
+
+
+ORD_KINDS = ["literal", "built", "subclass", "lowered"]
+
+
+def _flag(x, kind):
+    return {"py": bool(x), "np": np.bool_(x), "int": int(bool(x))}[kind]
+
+
 def _count(ctx, key):
     ctx.extra[key] = ctx.extra.get(key, 0) + 1
 
 
-def _path(ctx, case, name):
+PATH_STYLES = ["dotted", "dotted", "spaces", "subdir", "glob_chars", "non_ascii", "ext_letters", "relative"]
+
+
+def _case_dir(ctx, case):
+    style = case["fmt"].get("path_style", "plain")
+    top = "c%s" % case["i"]
+    sub = {"subdir": os.path.join(top, "sub.dir", "deeper"), "spaces": top + " my run", "glob_chars": top + "[1]*?",
+           "non_ascii": top + "_t\u00f6m\u00f6_\u00df"}.get(style, top)
+    d = os.path.join(ctx.scratch, sub)
+    os.makedirs(d, exist_ok=True)
+    return d
+
+
+def _hostile_path(ctx, case, name):
+    """output / parameter file names inside the case's own directory: dots inside the stem (pos_1.2, TS_03.5deg), spaces,
+    sub-directories, [ ] * ?, non-ASCII letters, stems ending in the letters of the extension, relative paths (cwd = scratch)"""
+    style = case["fmt"].get("path_style", "plain")
+    stem, ext = os.path.splitext(name)
+    if style == "dotted":
+        stem = ("TS_03.5deg_" + stem) if case["i"] % 2 else (stem + "_pos_1.2")
+    elif style == "spaces":
+        stem = "my " + stem + " v2"
+    elif style == "glob_chars":
+        stem = stem + "[0]*"
+    elif style == "non_ascii":
+        stem = "sp\u00e4t_" + stem
+    elif style == "ext_letters":
+        stem = stem + ext.lstrip(".")
+    p = os.path.join(_case_dir(ctx, case), stem + ext)
+    return os.path.relpath(p, ctx.scratch) if style == "relative" else p
+
+
+def _path_plain(ctx, case, name):
     return os.path.join(ctx.scratch, "c%s_%s" % (case["i"], name))
+
+
+def _path(ctx, case, name):
+    return _hostile_path(ctx, case, name)
+
+
+POOL_NAMES = {".mrc": "pool in.v1.2.mrc", ".st": "pool[in]*\u00e9.st", ".ali": "poolali.ali"}
 
 
 def _pool_file(ctx, case, nyx, tag, force=False):
     """File input comes from a small pool of REUSED paths (one per extension, shared by all configurations and all cases
     of the process); the path is rewritten with the independent writer whenever the stack it has to hold changes - as a
     user (or another program) replacing a file between two operations would."""
-    p = os.path.join(ctx.scratch, "pool_" + "in" + case["fmt"]["in_ext"])
+    p = os.path.join(ctx.scratch, POOL_NAMES[case["fmt"]["in_ext"]])
     pool = ctx.__dict__.setdefault("_c15_pool", {})
     key = (case["i"], tag)
     if force or pool.get(p) != key:
@@ -594,6 +670,10 @@ def _stack_input(ctx, case, v, nyx=None, tag="in"):
         big = np.zeros(tuple(2 * s for s in a.shape), dtype=a.dtype)
         big[1::2, ::2, 1::2] = a
         a = big[1::2, ::2, 1::2]
+    elif lay == "swapaxes":                # partially permuted axes: a view of an array stored with axes 1 and 2 exchanged
+        a = np.ascontiguousarray(np.swapaxes(a, 1, 2)).swapaxes(1, 2)
+    elif lay == "negstride":               # negative strides on two axes
+        a = np.ascontiguousarray(a[::-1, :, ::-1])[::-1, :, ::-1]
     else:
         a = np.array(a, order="C", copy=True)
         if lay == "readonly":
@@ -647,25 +727,34 @@ def _indices_input(ctx, case, v, k):
         return [int(x) + off for x in idx0]
     if kind == "array":
         return np.array(idx0, dtype=np.int64) + off
-    if kind == "array_i32":
-        return (np.array(idx0) + off).astype(np.int32)
+    if kind in ("array_i32", "array_i16", "array_u8"):
+        return (np.array(idx0) + off).astype({"array_i32": np.int32, "array_i16": np.int16, "array_u8": np.uint8}[kind])
     if kind == "txt":
         p = _path(ctx, case, "idx%d%s" % (k, case["fmt"]["idx_ext"]))
         _write_lines(p, [str(int(x) + off) for x in idx0], case["fmt"]["idx_style"])
         return p
     p = _path(ctx, case, "idx%d.csv" % k)
+    truth = case["fmt"].get("csv_truth", "bool")
+
+    def sp(flag, j, for_removed=False):
+        # spellings of a flag: True/False, 1/0 (integers; the Removed column stays boolean-spelled), TRUE/FALSE, true/false, mixed
+        t = "bool" if (for_removed and truth == "int01") else truth
+        if t == "int01":
+            return "1" if flag else "0"
+        w = "True" if flag else "False"
+        return {"bool": w, "upper": w.upper(), "lower": w.lower(), "mixed_case": [w, w.upper(), w.lower()][j % 3]}[t]
     flags = [q in set(idx0) for q in range(n)]
     rows = []
     if kind == "csv":
-        rows = ["Idx,TiltAngle,ToBeRemoved"] + ["%d,%.2f,%s" % (q, case["angles"][q], flags[q]) for q in range(n)]
+        rows = ["Idx,TiltAngle,ToBeRemoved"] + ["%d,%.2f,%s" % (q, case["angles"][q], sp(flags[q], q)) for q in range(n)]
     else:
         rows = ["Idx,ToBeRemoved,Removed"]
         q = 0
         for r in range(n + len(case["gone_rows"])):
             if r in case["gone_rows"]:
-                rows.append("%d,%s,True" % (r, case["gone_flags"][case["gone_rows"].index(r)]))
+                rows.append("%d,%s,%s" % (r, sp(case["gone_flags"][case["gone_rows"].index(r)], r), sp(True, r, True)))
             else:
-                rows.append("%d,%s,False" % (r, flags[q]))
+                rows.append("%d,%s,%s" % (r, sp(flags[q], r), sp(False, r, True)))
                 q += 1
     with open(p, "w") as f:
         f.write("\n".join(rows) + "\n")
@@ -707,14 +796,15 @@ def _run_variant(ctx, case, op, k, v, objs):
         return _shared(objs, key, build)
     stack = _stack_input(ctx, case, v)
     out = _path(ctx, case, "%s%d_out%s" % (op, k, case["fmt"]["out_ext"])) if v["out_file"] else None
-    kw = dict(input_order=v["in_order"], output_order=v["out_order"])
+    kw = dict(input_order=_ord(v["in_order"], v.get("ord_in", "literal")), output_order=_ord(v["out_order"], v.get("ord_out", "literal")))
+    _count(ctx, "order_strings:in=%s,out=%s/%s" % (v.get("ord_in", "literal"), v["out_order"], v.get("ord_out", "literal")))
     if op == "sort":
         args = (stack, shared(("angles", v["ang"]), lambda: _angles_input(ctx, case, v, k)))
         kw["output_file"] = out
         _count(ctx, "angles_as:" + v["ang"])
     elif op == "remove":
         args = (stack, shared(("indices", v["idx"], v["from1"]), lambda: _indices_input(ctx, case, v, k)))
-        kw.update(numbered_from_1=v["from1"], output_file=out)
+        kw.update(numbered_from_1=_flag(v["from1"], v.get("flag", "py")), output_file=out)
         _count(ctx, "indices_as:%s/%s" % (v["idx"], "1-based" if v["from1"] else "0-based"))
     elif op == "split":
         args = (stack,)
@@ -807,7 +897,7 @@ def _mutated_history(ctx, case, rng):
         o_out = orc.ORDERS[int(rng.integers(0, 2))]
         now = {"angles": ang.copy(), "idx0": [int(q) - (1 if from1 else 0) for q in idx], "axes": list(axes)}
         nyx_now = np.array(orc.to_nyx(S, o_in), copy=True)
-        kw = dict(input_order=o_in, output_order=o_out)
+        kw = dict(input_order=_ord(o_in, ORD_KINDS[(step + case["i"]) % 4]), output_order=_ord(o_out, ORD_KINDS[(step + 1 + case["i"]) % 4]))
         if op == "sort":
             args = (S, ang)
         elif op == "remove":
@@ -838,10 +928,10 @@ def _mutated_history(ctx, case, rng):
     _count(ctx, "mutated_history:cases")
 
 
-def _plain_call(ctx, case, op, stack, out_order, out_file=None):
+def _plain_call(ctx, case, op, stack, out_order, out_file=None, in_order="xyz", ord_kind="built"):
     """one call with fresh parameter objects built from the case's original values -> tuple of n,y,x arrays or None"""
     ts = ctx.ts
-    kw = dict(input_order="xyz", output_order=out_order)
+    kw = dict(input_order=_ord(in_order, ord_kind), output_order=_ord(out_order, ord_kind))
     if op == "sort":
         args = (stack, np.array(case["angles"], dtype=np.float64))
     elif op == "remove":
@@ -901,6 +991,68 @@ def _file_replaced(ctx, case, rng):
                         r2, nyx=B, monitor="file_replaced")
 
 
+def _chain(ctx, case, rng):
+    """the very object one operation RETURNED (for 'xyz' output a transposed view of cryoCAT's internal array; or the file it
+    wrote) is fed into a second operation, declared in the order it was returned in: the end result must be the composition
+    of the two numpy selections computed from the case's original stack"""
+    nyx = case["nyx"]
+    n = nyx.shape[0]
+    first = str(rng.choice(["sort", "flip", "remove", "split"]))
+    if first == "remove" and n - len(case["idx0"]) < 2:
+        first = "flip"
+    if first == "split" and n < 4:
+        first = "sort"
+    o_in, o_mid, o_out = (orc.ORDERS[int(q)] for q in rng.integers(0, 2, 3))
+    via_file = bool(rng.random() < 0.35) and first != "split"
+    f1 = _path(ctx, case, "chain_mid.mrc") if via_file else None
+    stack = np.array(orc.from_nyx(nyx, o_in), order="C", copy=True)
+    kw = dict(input_order=_ord(o_in, "built"), output_order=_ord(o_mid, "built"))
+    if first == "sort":
+        ok, r1 = ctx.call(FN[first], ctx.ts.sort_tilts_by_angle, stack, [float(q) for q in case["angles"]], output_file=f1, **kw)
+        mid = orc.exp_sort(nyx, case["angles"])[0]
+    elif first == "flip":
+        ok, r1 = ctx.call(FN[first], ctx.ts.flip_along_axes, stack, list(case["axes"]), output_file=f1, **kw)
+        mid = orc.exp_flip(nyx, case["axes"])
+    elif first == "remove":
+        ok, r1 = ctx.call(FN[first], ctx.ts.remove_tilts, stack, [int(q) for q in case["idx0"]], numbered_from_1=np.False_, output_file=f1, **kw)
+        mid = orc.exp_remove(nyx, case["idx0"])[0]
+    else:
+        ok, r1 = ctx.call(FN[first], ctx.ts.split_stack_even_odd, stack, **kw)
+        r1 = r1[0] if ok and isinstance(r1, tuple) and len(r1) == 2 else None
+        mid = orc.exp_split(nyx)[0]
+    if not ok or not isinstance(r1, np.ndarray) or r1.ndim != 3:
+        return
+    mid = np.array(mid, copy=True)
+    second = str(rng.choice(["flip", "crop", "bin", "split"])) if mid.shape[0] >= 2 else "flip"
+    fed = f1 if via_file else r1                       # the returned object itself, not a copy
+    kw = dict(input_order=_ord(o_mid, "lowered"), output_order=_ord(o_out, "subclass"))
+    if second == "flip":
+        ok, r2 = ctx.call(FN[second], ctx.ts.flip_along_axes, fed, list(case["axes"]), **kw)
+        exp = (orc.exp_flip(mid, case["axes"]),)
+    elif second == "crop":
+        ok, r2 = ctx.call(FN[second], ctx.ts.crop, fed, new_width=case["crop"][0], new_height=case["crop"][1], **kw)
+        exp = (orc.exp_crop(mid, case["crop"][0], case["crop"][1]),)
+    elif second == "bin":
+        ok, r2 = ctx.call(FN[second], ctx.ts.bin, fed, int(case["bin"]), **kw)
+        exp = None
+    else:
+        ok, r2 = ctx.call(FN[second], ctx.ts.split_stack_even_odd, fed, **kw)
+        exp = orc.exp_split(mid)
+    parts = r2 if second == "split" else (r2,)
+    if not ok or not (isinstance(parts, tuple) and all(isinstance(q, np.ndarray) and q.ndim == 3 for q in parts)):
+        return
+    got = tuple(orc.to_nyx(q, o_out) for q in parts)
+    if exp is None:
+        w = orc.diff_binned(got[0], mid, int(case["bin"]))
+    else:
+        w = None
+        for g, e in zip(got, exp):
+            w = w or orc.diff_exact(g, e)
+    ctx.check("chain", w is None, w and dict(w, first=FN[first], second=FN[second], fed="file written by the first call" if via_file else "the array object the first call returned",
+                                             orders=[o_in, o_mid, o_out]))
+    _count(ctx, "chain:%s>%s" % (first, second))
+
+
 def _indices_load_direct(ctx, case):
     """ioutils.indices_load called DIRECTLY by the driver (keyword form, fresh objects/files), for every representation and
     both numberings.  Why: the indices_load call monitor must be reached whatever cryoCAT's internal call structure is - if
@@ -951,13 +1103,13 @@ def run_case(ctx, case):
         via_file = bool(rng.random() < 0.4)
         f1 = _path(ctx, case, "flip2_%s.mrc" % ax) if via_file else None
         ok, r1 = ctx.call("flip_along_axes", ts.flip_along_axes, _stack_input(ctx, case, v1), ax if rng.random() < 0.5 else [ax],
-                          output_file=f1, input_order=v1["in_order"], output_order=v1["out_order"])
+                          output_file=f1, input_order=_ord(v1["in_order"], "lowered"), output_order=_ord(v1["out_order"], "built"))
         if not ok or not isinstance(r1, np.ndarray):
             continue
         o2 = orc.ORDERS[int(rng.integers(0, 2))]
         second = f1 if via_file else r1
-        ok, r2 = ctx.call("flip_along_axes", ts.flip_along_axes, second, [ax], input_order=v1["out_order"] if not via_file else orc.ORDERS[int(rng.integers(0, 2))],
-                          output_order=o2)
+        ok, r2 = ctx.call("flip_along_axes", ts.flip_along_axes, second, [ax],
+                          input_order=_ord(v1["out_order"] if not via_file else orc.ORDERS[int(rng.integers(0, 2))], "subclass"), output_order=_ord(o2, "built"))
         if not ok or not isinstance(r2, np.ndarray) or r2.ndim != 3:
             continue
         w = orc.diff_exact(orc.to_nyx(r2, o2), nyx)
@@ -966,12 +1118,11 @@ def run_case(ctx, case):
     _file_replaced(ctx, case, rng)
     _indices_load_direct(ctx, case)
     _mutated_history(ctx, case, rng)
+    _chain(ctx, case, rng)
+    top = "c%s" % case["i"]
     for f in os.listdir(ctx.scratch):
-        if f.startswith("c%s_" % case["i"]):
-            try:
-                os.remove(os.path.join(ctx.scratch, f))
-            except OSError:
-                pass
+        if f == top or (f.startswith(top) and not f[len(top)].isdigit()):
+            shutil.rmtree(os.path.join(ctx.scratch, f), ignore_errors=True)
 
 
 # ---- exhaustive sub-spaces (shard 0): judged by the call monitors ---------------------------------------
